@@ -164,11 +164,34 @@ def make_formatter(cfg):
 DIRTY = '<!DOCTYPE dirty><div><pre><b>x<code>'      # leaves a doctype, level 4, inPreformatted 2, four open elements behind
 
 
+_tmpdir = []
+
+
+def tmp_file(text):
+    """The document as a UTF-8 file in a private scratch directory (removed at exit)."""
+    import atexit
+    import os
+    import shutil
+    import tempfile
+    if not _tmpdir:
+        _tmpdir.append(tempfile.mkdtemp(prefix='ahp-c11-'))
+        atexit.register(shutil.rmtree, _tmpdir[0], True)
+    path = os.path.join(_tmpdir[0], 'doc.html')
+    with open(path, 'wb') as fh:
+        fh.write(text.encode('utf-8'))
+    return path
+
+
 def run_formatter(cfg, text, via='str'):
     """Returns (formatter object, html)."""
     f = make_formatter(cfg)
     if via == 'bytes' and cfg.get('enc'):
         f.parseStr(text.encode(cfg['enc']))
+    elif via == 'file' and cfg.get('enc'):
+        f.parseFile(tmp_file(text))             # codecs.open(..., encoding): decoded, no newline translation
+    elif via == 'fileobj':
+        with open(tmp_file(text), 'r', encoding='utf-8', newline='') as fh:
+            f.parseFile(fh)
     elif via == 'feed':
         f.feed(text)
     elif via == 'reuse':
@@ -536,8 +559,8 @@ def gen_cases(tier, rng, classes=CLASSES, n_quick=4000, n_thorough=60000):
             pre = [random_cfg(rng), random_cfg(rng)]
         elif x < 0.40:
             pre = [dict(cfg)]
-        via = rng.choice(('str', 'str', 'str', 'bytes', 'feed', 'reuse', 'parser'))
-        if via == 'bytes' and not cfg['enc']:
+        via = rng.choice(('str', 'str', 'str', 'str', 'bytes', 'feed', 'reuse', 'reuse', 'parser', 'parser', 'file', 'fileobj'))
+        if via in ('bytes', 'file') and not cfg['enc']:
             via = 'str'
         if via == 'parser' and cfg['cls'] not in ('pretty', 'mini'):
             via = 'str'
@@ -785,7 +808,7 @@ class Check(PropCheck):
             'whitespace, tabs, CR/LF / script and style / void and self-closed elements / implicit and stray closes / '
             'comments, references, odd whitespace, attributes of every rendering form) x the four formatter classes x indent in '
             "{'', ' ', '  ', '\\t', ' \\t', '    ', 0, 2, 4, default} x encoding in {utf-8, None} x slimSelfClosing x entry point "
-            '(parseStr str/bytes, feed, re-used object, parser.getFormattedHTML/getMiniHTML) x 0-2 formatter passes applied '
+            '(parseStr str/bytes, parseFile path/file object, feed, re-used object, parser.getFormattedHTML/getMiniHTML) x 0-2 formatter passes applied '
             'beforehand; 25 fixed documents x all classes x three indents.  Non-trivial: the document has at least two elements '
             'and some text; distinct by canonical JSON')
     assumptions = [
@@ -844,7 +867,10 @@ class Check(PropCheck):
                     return ['ok', enc(ps.getFormattedHTML())]
                 return ['ok', enc(ps.getFormattedHTML(cfg['indent']))]
             f, html = run_formatter(cfg, p.src, d['via'])
-            self.last_root_is_wrapper = f.root is not None and f.root.tagName == WRAPPER
+            try:
+                self.last_root_is_wrapper = f.root is not None and f.root.tagName == WRAPPER
+            except Exception:
+                self.last_root_is_wrapper = True
             return self.observe_formatter(f, html)
         self.last_root_is_wrapper = False
         try:
